@@ -409,6 +409,14 @@ def run_real(case):
         model.append(line)
         o.setdefault('rchecks', []).append((len(model) - 1, kind, payload))
 
+    def grid_label(im):
+        gr = getattr(im, 'grid', None)
+        if gr is not None and (gr is grid or gr == grid):
+            return 'detector'
+        if gr is not None and (gr is det.input_grid or gr == det.input_grid):
+            return 'input'
+        return 'foreign'
+
     def rdump(o):
         real = [None if h is None else np.array(np.asarray(h), dtype=float).ravel().tolist() for h in handles]
         share = [(a, b) for a in range(len(handles)) for b in range(a + 1, len(handles))
@@ -510,6 +518,8 @@ def run_real(case):
             model.append('C17 read')
             o['model_idx'] = len(model) - 1
             do_read(o)
+            if 'got' in o and not o['bad']:
+                rline(o, 'C17 tread', 'exact', 'ok ' + grid_label(images[-1][0]))
             if refm and 'got' in o and not o['bad']:
                 rline(o, 'C17 rread', 'read', o['got'])
                 img_handle.append(len(handles))
@@ -520,6 +530,8 @@ def run_real(case):
             if 'power' in o:
                 model.append('C17 int %s %s %s' % (rat_list(o['power']), rat(dt), rat(w)))
                 o['model_int_idx'] = len(model) - 1
+            if 'power' in o and o['status'] == 'ok':
+                rline(o, 'C17 tint %s' % ('foreign' if ik == 'foreignfield' else 'plain' if ik in ('plain', 'list') else 'input'), 'ok')
             if refm and 'power' in o and o['status'] == 'ok':
                 rline(o, 'C17 ralloc %s' % rat_list(o['power']), 'ok')
                 rline(o, 'C17 rint %d %s %s' % (len(handles), rat(dt), rat(w)), 'ok')
@@ -529,6 +541,8 @@ def run_real(case):
                 model.append('C17 read')
                 o['model_idx'] = len(model) - 1
                 do_read(o)
+                if 'got' in o and not o['bad']:
+                    rline(o, 'C17 tread', 'exact', 'ok ' + grid_label(images[-1][0]))
                 if refm and 'got' in o and not o['bad']:
                     rline(o, 'C17 rread', 'read', o['got'])
                     img_handle.append(len(handles))
@@ -717,6 +731,8 @@ def compare_model(ctx, out, case, obs, base):
             ctx.count('ref-model:' + kind)
             if kind in ('ok', 'err value'):
                 good = resp == kind
+            elif kind == 'exact':
+                good = resp == payload
             elif kind == 'read':
                 m = parse_rat_list(resp[3:]) if resp.startswith('ok [') else None
                 good = m is not None and len(m) == len(payload) and all(abs(float(a) - b) <= TOL * max(1.0, abs(float(a))) for a, b in zip(m, payload))
